@@ -208,8 +208,32 @@ class Ctx:
         """thorough tier: re-check the compiled property file and everything it depends on with the independent
         checker, and record the axioms it reports"""
         mod = "BCL." + prop_file[:-2].replace("/", ".")
-        with BuildLock():
-            rc, out, dt = sh(["coqchk", "-silent", "-o", "-Q", ".", "BCL", mod], cwd=COQ, timeout=7200)
+        # the result depends only on the compiled files: reuse it while none of them changed
+        import hashlib
+        h = hashlib.sha256(mod.encode())
+        for root, _, fs in sorted(os.walk(COQ)):
+            for f in sorted(fs):
+                if f.endswith(".vo"):
+                    h.update(f.encode())
+                    with open(os.path.join(root, f), "rb") as fh:
+                        h.update(hashlib.sha256(fh.read()).digest())
+        key = h.hexdigest()
+        cpath = os.path.join(BUILD, "coqchk_cache.json")
+        try:
+            cache = json.load(open(cpath))
+        except Exception:
+            cache = {}
+        if key in cache:
+            rc, out, dt = cache[key]["rc"], cache[key]["out"], 0.0
+            self.notes.append("coqchk %s: result of an earlier run on the same compiled files reused" % mod)
+        else:
+            with BuildLock():
+                rc, out, dt = sh(["coqchk", "-silent", "-o", "-Q", ".", "BCL", mod], cwd=COQ, timeout=7200)
+            cache[key] = dict(rc=rc, out=out[-3000:], mod=mod)
+            try:
+                json.dump(cache, open(cpath, "w"))
+            except Exception:
+                pass
         self.notes.append("coqchk %s: exit %d in %.0fs" % (mod, rc, dt))
         m = re.search(r'\* Axioms:(.*?)(?:\n\* |\Z)', out, re.S)
         ax = " ".join(m.group(1).split()) if m else "?"
